@@ -56,7 +56,7 @@ int8 read8s(FILE *f, int *err)
 
    error:
 	set_error(ferror(f) ? errno : EOF);
-	return 0;
+	return (int8)0xff;	/* as read8() and as the memory and callback back-ends */
 }
 
 uint16 read16l(FILE *f, int *err)
